@@ -1,4 +1,4 @@
-from vf.gen import Plan
+from vf.gen import Plan, Module
 from props.fam_model import MEMBERS, member_module, LOAD_PARAMS, LOAD_ARGS, load_slices
 from props.fam_l1 import l1_loader_module
 from props.fam_l2 import l2_module, l2_dump_module
@@ -16,5 +16,49 @@ def build(tier, seed):
                   bounds="slice " + sl + ": presence bits, symbolic stub codes, unknown keys, wrong node/root kinds, list truncation; 6 modes")
 
         mods.append(mm)
+    mo = Module("c06_dump_optional").pre('''
+from typing import TypedDict, NotRequired
+import dataclasses
+class TDM(TypedDict):
+    a: Stub
+    b: NotRequired[Stub]
+    c: NotRequired[Stub]
+@dataclasses.dataclass
+class DCM:
+    a: Stub
+    b: Stub
+def raising_dumper(o):
+    if o.n == -9: raise KeyError("boom")
+    if o.n == -8: raise AttributeError("boom")
+    if o.n == -7: raise IndexError("boom")
+    return o.n
+DS = {dt: Retort(recipe=[dumper(Stub, raising_dumper)], debug_trail=dt) for dt in DT_MODES}
+D_TD = {dt: r.get_dumper(TDM) for dt, r in DS.items()}
+D_DC = {dt: r.get_dumper(DCM) for dt, r in DS.items()}
+def dump_optional(pb, pc, va, vb, vc):
+    """a field dumper that raises (KeyError / AttributeError / IndexError: the classes the generated code itself catches for absent
+    optional fields) fails the dump in every debug mode; otherwise the modes agree on the result"""
+    obj = {"a": Stub(va)}
+    if pb: obj["b"] = Stub(vb)
+    if pc: obj["c"] = Stub(vc)
+    bad = va in (-9, -8, -7) or (pb and vb in (-9, -8, -7)) or (pc and vc in (-9, -8, -7))
+    exp = {k: v.n for k, v in obj.items()}
+    for dt in DT_MODES:
+        r = run(D_TD[dt], dict(obj))
+        if bad:
+            if r[0]: return False
+        elif not r[0] or r[1] != exp: return False
+        r = run(D_DC[dt], DCM(Stub(va), Stub(vb)))
+        bad2 = va in (-9, -8, -7) or vb in (-9, -8, -7)
+        if bad2:
+            if r[0]: return False
+        elif not r[0] or r[1] != {"a": va, "b": vb}: return False
+    return True
+''')
+    mo.ob("dump_optional_fields", "pb: bool, pc: bool, va: int, vb: int, vc: int", "return dump_optional(pb, pc, va, vb, vc)",
+          pre=["va >= -9 and vb >= -9 and vc >= -9"], timeout=120 if tier == "quick" else 600,
+          family="model dumpers with optional output fields: a raising field dumper fails the dump in every mode",
+          bounds="TypedDict with 2 NotRequired keys (presence bits) and a dataclass; payloads symbolic; dumper raises KeyError / AttributeError / IndexError for 3 codes")
+    mods.append(mo)
     return Plan("C06", mods, assumptions=["CrossHair models of builtins (floats as reals: numeric boundary regions are owned by the E2 kernels)"],
                 bounds={}, outside=["strings longer than the bound"])
